@@ -1792,7 +1792,7 @@ matrix_mul_generic(PyObject *self, PyObject *other, int inplace)
 
   if (inplace && (id != id_self || (MAT_LGT(self)==1 &&
       (Matrix_Check(other) && MAT_LGT(other)!=1)) ||
-      (MAT_LGT(self)>1 && (Matrix_Check(other) && MAT_LGT(other)>1))) )
+      (MAT_LGT(self)!=1 && (Matrix_Check(other) && MAT_LGT(other)!=1))) )
     PY_ERR_TYPE("invalid inplace operation");
 
   /* first operand is a scalar */
